@@ -8,7 +8,7 @@
 From Coq Require Import ZArith NArith String List Bool.
 From Sidetree Require Import Base.Sha2 Json.Json Json.Jcs Sidetree.Protocol Sidetree.Hashing Sidetree.Parser Sidetree.Applier
      Json.JcsProps Json.JcsRoundTrip Sidetree.JequivDecode Sidetree.ClientCreate
-     Sidetree.Rules Sidetree.Validator Sidetree.ClientUpdate Sidetree.ClientDeactivateRecover Sidetree.Resolve Sidetree.Composer Sidetree.ClientApply Sidetree.ClientSimple Sidetree.ClientApplySigned Sidetree.Lifecycle Sidetree.Window Sidetree.ClientWindowed Sidetree.ClientWindowedDR Sidetree.ClientWindowedApply Sidetree.Anchored Sidetree.ValidatorJequiv Sidetree.ComposerOrder Sidetree.ApplierOrder Sidetree.AnchoredApply.
+     Sidetree.Rules Sidetree.Validator Sidetree.ClientUpdate Sidetree.ClientDeactivateRecover Sidetree.Resolve Sidetree.Composer Sidetree.ClientApply Sidetree.ClientSimple Sidetree.ClientApplySigned Sidetree.Lifecycle Sidetree.Window Sidetree.ClientWindowed Sidetree.ClientWindowedDR Sidetree.ClientWindowedApply Sidetree.Anchored Sidetree.ValidatorJequiv Sidetree.ComposerOrder Sidetree.JsonPatchOrder Sidetree.ComposerOrderAll Sidetree.ApplierOrder Sidetree.AnchoredApply.
 Import ListNotations.
 Open Scope string_scope.
 
@@ -343,7 +343,7 @@ Print Assumptions C08_lifecycle_built_applies.
    commitments and delta hash; anchor origin and patches up to member order (the anchor-origin
    validator is assumed to look at the value, not at member order).  Anchoring the re-read
    operation once more gives the same bytes.  The two byte strings apply to the same state (below,
-   C08_*_anchored_applies_alike): proved for deltas of dedicated actions; for deltas containing
+   C08_*_anchored_applies_alike): proved for deltas without `test` operations; for deltas containing
    ietf-json-patch the composer's behaviour under re-ordering is decided by correspondence. *)
 Theorem C08_deactivate_anchored : forall cfg u n o t bytes p b',
   parse_operation cfg u n o t bytes false = Some p -> p_type p = "deactivate" ->
@@ -417,11 +417,11 @@ Print Assumptions C08_anchoring_is_idempotent_create.
 (* ... and apply to the same state: at byte level (the applier derives its view from the bytes with
    the parser mirror in batch mode), on states equal up to the member order of their documents
    (rm_rel: every other field equal), the request and its anchored form are both refused or give
-   states equal up to member order.  Deltas of dedicated actions (dedicated: not ietf-json-patch). *)
+   states equal up to member order.  Deltas whose ietf-json-patches hold no `test` operation (order_blind). *)
 Theorem C08_update_anchored_applies_alike : forall cfg u n o t bytes p b' sig_ok tm num ver canon equiv rm rm',
   parse_operation cfg u n o t bytes false = Some p -> p_type p = "update" ->
   anchored_bytes p = Some b' -> (Z.of_nat (String.length b') <= P_MaxOperationSize cfg)%Z ->
-  (forall d, p_delta p = Some d -> Forall dedicated (d_patches d)) ->
+  (forall d, p_delta p = Some d -> Forall order_blind (d_patches d)) ->
   rm_rel rm rm' ->
   opt_rm_rel (apply_bytes cfg u n TUpdate bytes sig_ok tm num ver canon equiv rm)
              (apply_bytes cfg u n TUpdate b' sig_ok tm num ver canon equiv rm').
@@ -431,7 +431,7 @@ Print Assumptions C08_update_anchored_applies_alike.
 Theorem C08_recover_anchored_applies_alike : forall cfg u n o t bytes p b' sig_ok tm num ver canon equiv rm rm',
   parse_operation cfg u n o t bytes false = Some p -> p_type p = "recover" ->
   anchored_bytes p = Some b' -> (Z.of_nat (String.length b') <= P_MaxOperationSize cfg)%Z ->
-  (forall d, p_delta p = Some d -> Forall dedicated (d_patches d)) ->
+  (forall d, p_delta p = Some d -> Forall order_blind (d_patches d)) ->
   rm_rel rm rm' ->
   opt_rm_rel (apply_bytes cfg u n TRecover bytes sig_ok tm num ver canon equiv rm)
              (apply_bytes cfg u n TRecover b' sig_ok tm num ver canon equiv rm').
@@ -443,7 +443,7 @@ Theorem C08_create_anchored_applies_alike : forall cfg u n o t,
   forall bytes p b' sig_ok tm num ver canon equiv rm rm',
   parse_operation cfg u n o t bytes false = Some p -> p_type p = "create" ->
   anchored_bytes p = Some b' -> (Z.of_nat (String.length b') <= P_MaxOperationSize cfg)%Z ->
-  (forall d, p_delta p = Some d -> Forall dedicated (d_patches d)) ->
+  (forall d, p_delta p = Some d -> Forall order_blind (d_patches d)) ->
   rm_rel rm rm' ->
   opt_rm_rel (apply_bytes cfg u n TCreate bytes sig_ok tm num ver canon equiv rm)
              (apply_bytes cfg u n TCreate b' sig_ok tm num ver canon equiv rm').
@@ -459,7 +459,7 @@ Proof. exact deactivate_anchored_applies_alike. Qed.
 Print Assumptions C08_deactivate_anchored_applies_alike.
 
 (* whole histories: every request replaced by its anchored form (astep_ok: accepted at request time,
-   anchored form within the size limit, delta of dedicated actions), folded by the byte-level
+   anchored form within the size limit, delta without `test` operations), folded by the byte-level
    applier over states equal up to member order: the resolved states are equal up to member order *)
 Theorem C08_history_anchored_resolves_alike : forall cfg u n o t,
   (forall a b, jequiv a b -> o a = o b) ->
